@@ -360,72 +360,78 @@ Lemma forallb_incl {A} (f : A -> bool) l1 l2 : incl l1 l2 -> forallb f l2 = true
 Proof. intros Hi H. apply forallb_forall. intros x Hx. eapply forallb_forall in H; eauto. Qed.
 
 (* ---------------------------------------------------------------- RemoveRef *)
+(* packed-refs is rewritten first, then the loose path is removed; when the
+   operating system refuses the second step (the path is a non-empty directory,
+   or lies below a regular file) the packed entry is gone all the same and no
+   loose file of that name can exist: the name is removed from the map whether
+   the call answers nil or an error *)
 Lemma remove_ref_spec s n : wfb s = true -> name_okb n = true ->
   let (s', r) := remove_ref s n in
-  (r = Er EFs /\ s' = s) \/
-  (r = Ok tt /\ wfb s' = true /\ abs_eq (abs s') (m_del (abs s) n)).
+  (r = Er EFs \/ r = Ok tt) /\ wfb s' = true /\ abs_eq (abs s') (m_del (abs s) n).
 Proof.
   intros Hw Hn. pose proof Hn as Hn'. unfold name_okb in Hn'.
   apply andb_true_iff in Hn' as [Hn' Hl]. apply andb_true_iff in Hn' as [Hval Hc].
   destruct (wfb_parts s Hw) as [Hnd [Hf [Hr [Hh Hp]]]].
   unfold remove_ref. rewrite Hval. cbn [negb].
-  (* the loose part: a file list f1 without n, same invariant *)
-  set (al := match stat (fs s) n with
-             | SFile _ => Ok {| files := del_file n (files (fs s)); dirs := dirs (fs s) |}
-             | SDir => if dir_nonempty (fs s) n then Er EFs
-                       else Ok {| files := files (fs s); dirs := filter (fun d => negb (beqb n d)) (dirs (fs s)) |}
-             | SNoEnt => Ok (fs s)
-             | SNotDir => Er EFs
+  (* step 1: packed-refs without the name *)
+  set (ap := match packed s with
+             | None => Ok None
+             | Some b => match drop_lines n (scan_lines b) false with
+                         | Er e => Er e
+                         | Ok (kept, true) => Ok (Some (unlines kept))
+                         | Ok (_, false) => Ok (Some b)
+                         end
              end).
-  assert (Hal : al = Er EFs \/ exists f1, al = Ok f1 /\
-            lookup n (files f1) = None /\
-            (forall x, beqb x n = false -> lookup x (files f1) = lookup x (files (fs s))) /\
-            nodup_keys (files f1) = true /\ forallb file_okb (files f1) = true /\
-            is_file f1 refsDir = false /\ is_dir f1 HEADp = false).
-  { unfold al, stat. destruct (lookup n (files (fs s))) as [c|] eqn:EL.
-    - right. eexists. split; [reflexivity|]. cbn [files dirs]. repeat split.
-      + apply lookup_del_same.
-      + intros x Hx. now apply lookup_del_other.
-      + now apply nodup_filter.
-      + now apply forallb_filter'.
-      + unfold is_file. cbn [files]. rewrite lookup_del_other; [exact Hr|].
-        rewrite beqb_sym. rewrite beqb_sym. now apply valid_not_refs.
-      + exact Hh.
-    - destruct (is_dir (fs s) n).
-      + destruct (dir_nonempty (fs s) n); [now left|]. right. eexists. split; [reflexivity|].
-        cbn [files dirs]. repeat split; auto.
+  assert (Hap : exists p1, ap = Ok p1 /\ packed_okb p1 = true /\
+            forall f x, packed_val {| fs := f; packed := p1 |} x = if beqb x n then None else packed_val s x).
+  { unfold ap. pose proof (packed_ok_parse s Hp) as Hpa. unfold packed_val, packed_lines in *.
+    destruct (packed s) as [b|] eqn:EP.
+    - assert (Hcr : mem 13 b = false).
+      { cbn in Hp. apply andb_true_iff in Hp as [Hp' _]. now apply negb_true_iff. }
+      assert (Hlo : forallb line_okb (scan_lines b) = true).
+      { cbn in Hp. now apply andb_true_iff in Hp as [_ Hp']. }
+      destruct (drop_lines_spec n _ Hpa false) as [kept [found [-> [Hpk [Hi [Hfk Hnf]]]]]].
+      destruct found.
+      + eexists. split; [reflexivity|]. split.
+        * apply packed_ok_unlines; eapply forallb_incl; eauto. now apply scan_lines_clean.
+        * intros f x. cbn [packed].
+          rewrite scan_unlines by (eapply forallb_incl; eauto; now apply scan_lines_clean).
+          rewrite Hfk. destruct (beqb x n); reflexivity.
+      + eexists. split; [reflexivity|]. split; [exact Hp|].
+        intros f x. cbn [packed]. destruct (beqb x n) eqn:E; [|reflexivity].
+        apply beqb_eq in E. subst x. destruct (Hnf eq_refl) as [Ek|Hn0].
+        * specialize (Hfk n). rewrite beqb_refl, Ek in Hfk. now rewrite Hfk.
+        * now rewrite Hn0.
+    - exists None. split; [reflexivity|]. split; [reflexivity|].
+      intros f x. cbn [packed]. destruct (beqb x n); reflexivity. }
+  destruct Hap as [p1 [-> [Hp1 Hpv]]].
+  (* step 2: every outcome leaves a file list without n and the invariant intact *)
+  assert (Hfin : forall f1 r, (r = Er EFs \/ r = Ok tt) ->
+            lookup n (files f1) = None ->
+            (forall x, beqb x n = false -> lookup x (files f1) = lookup x (files (fs s))) ->
+            nodup_keys (files f1) = true -> forallb file_okb (files f1) = true ->
+            is_file f1 refsDir = false -> is_dir f1 HEADp = false ->
+            (r = Er EFs \/ r = Ok tt) /\ wfb {| fs := f1; packed := p1 |} = true /\
+            abs_eq (abs {| fs := f1; packed := p1 |}) (m_del (abs s) n)).
+  { intros f1 r Hrr Hk1 Hk2 Hnd1 Hf1 Hr1 Hh1. split; [assumption|]. split.
+    - unfold wfb. cbn [fs packed]. now rewrite Hnd1, Hf1, Hr1, Hh1, Hp1.
+    - intros x. unfold abs, m_del. rewrite Hpv. unfold loose_val. cbn [fs].
+      destruct (beqb x n) eqn:E.
+      + apply beqb_eq in E. subst x. now rewrite Hk1.
+      + now rewrite Hk2. }
+  unfold stat. destruct (lookup n (files (fs s))) as [c|] eqn:EL.
+  - apply Hfin; cbn [files dirs]; auto.
+    + apply lookup_del_same.
+    + intros x Hx. now apply lookup_del_other.
+    + now apply nodup_filter.
+    + now apply forallb_filter'.
+    + unfold is_file. cbn [files]. rewrite lookup_del_other; [exact Hr|]. now apply valid_not_refs.
+  - destruct (is_dir (fs s) n).
+    + destruct (dir_nonempty (fs s) n).
+      * apply Hfin; auto.
+      * apply Hfin; cbn [files dirs]; auto.
         unfold is_dir. cbn [dirs]. apply existsb_filter. exact Hh.
-      + destruct (file_above (fs s) n); [now left|]. right. exists (fs s). repeat split; auto. }
-  destruct Hal as [->|[f1 [-> [Hk1 [Hk2 [Hnd1 [Hf1 [Hr1 Hh1]]]]]]]]; [now left|].
-  assert (Hloose : forall p x, loose_val {| fs := f1; packed := p |} x = if beqb x n then None else loose_val s x).
-  { intros p x. unfold loose_val. cbn [fs]. destruct (beqb x n) eqn:E.
-    - apply beqb_eq in E. subst x. now rewrite Hk1.
-    - now rewrite Hk2. }
-  pose proof (packed_ok_parse s Hp) as Hap. unfold packed_lines in Hap.
-  destruct (packed s) as [b|] eqn:EP.
-  - assert (Hcr : mem 13 b = false).
-    { cbn in Hp. apply andb_true_iff in Hp as [Hp' _]. now apply negb_true_iff. }
-    assert (Hlo : forallb line_okb (scan_lines b) = true).
-    { cbn in Hp. now apply andb_true_iff in Hp as [_ Hp']. }
-    destruct (drop_lines_spec n _ Hap false) as [kept [found [-> [Hpk [Hi [Hfk Hnf]]]]]].
-    destruct found.
-    + right. split; [reflexivity|]. split.
-      * unfold wfb. cbn [fs packed]. rewrite Hnd1, Hf1, Hr1, Hh1. cbn [negb andb].
-        apply packed_ok_unlines; eapply forallb_incl; eauto. now apply scan_lines_clean.
-      * intros x. unfold abs, m_del. rewrite Hloose. unfold packed_val, packed_lines. cbn [packed].
-        rewrite scan_unlines by (eapply forallb_incl; eauto; now apply scan_lines_clean).
-        rewrite Hfk, ?EP. destruct (beqb x n); reflexivity.
-    + right. split; [reflexivity|]. split.
-      * unfold wfb. cbn [fs packed]. rewrite Hnd1, Hf1, Hr1, Hh1. cbn [negb andb]. exact Hp.
-      * intros x. unfold abs, m_del. rewrite Hloose. unfold packed_val, packed_lines. cbn [packed]. rewrite ?EP.
-        destruct (beqb x n) eqn:E; [|reflexivity]. apply beqb_eq in E. subst x.
-        destruct (Hnf eq_refl) as [Ek|Hn0].
-        -- specialize (Hfk n). rewrite beqb_refl, Ek in Hfk. now rewrite Hfk.
-        -- now rewrite Hn0.
-  - right. split; [reflexivity|]. split.
-    + unfold wfb. cbn [fs packed]. now rewrite Hnd1, Hf1, Hr1, Hh1.
-    + intros x. unfold abs, m_del. rewrite Hloose. unfold packed_val, packed_lines. cbn [packed]. rewrite ?EP.
-      destruct (beqb x n); reflexivity.
+    + destruct (file_above (fs s) n); apply Hfin; auto.
 Qed.
 
 (* ---------------------------------------------------------------- the loose walk *)
